@@ -48,8 +48,9 @@ Proof.
   induction fuel as [|fuel IH]; intros l s; cbn [sem_poll_loop]; [reflexivity|].
   pose proof (sem_try_spec s) as T. destruct (sem_try s) as [s1 ok]. destruct T as (T1 & T2 & _).
   destruct ok.
-  - destruct (T1 eq_refl) as (P & Q). split; [exact P|].
-    pose proof (drop_listener_opt_words E0 l s1) as (A & _). rewrite A. exact Q.
+  - destruct (T1 eq_refl) as (P & Q). split; [exact P|]. cbv zeta. cbn [getw].
+    pose proof (drop_listener_opt_words E0 l s1) as (A & _).
+    destruct (0 <? sw0 (drop_listener_opt E0 l s1)); [rewrite sw0_notify|]; rewrite A; exact Q.
   - destruct (T2 eq_refl) as (Z & ->).
     destruct l as [id|].
     + pose proof (poll_listener_words E0 id w s) as (A & _).
